@@ -145,7 +145,10 @@ struct Nb {
     data: Option<Vec<u8>>,
 }
 
-pub const VARIANTS: [(u64, usize); 5] = [(0, 1), (1, 2), (7, 1), (1 << 32, 1), (u64::MAX, 1)];
+/// (sector, sectors): the first sector, two sectors, the last sector of the device (capacity
+/// 2^32 + 8), the last two sectors, and a sector number with all bits set (the driver does not
+/// range-check; the device answers).
+pub const VARIANTS: [(u64, usize); 5] = [(0, 1), (1, 2), (0x1_0000_0007, 1), (0x1_0000_0006, 2), (u64::MAX, 1)];
 const STATUSES: [u8; 5] = [0, 1, 2, 0xff, 3];
 
 fn expect_of(status: u8) -> Result<(), Error> {
